@@ -493,6 +493,17 @@ Definition is_floatlike (v : value) : bool :=
   | _ => false
   end.
 
+(** float columns also hold Int64 cells (an integral JSON number in a float field);
+    integers of magnitude at most 2^53 convert to doubles exactly *)
+Definition num_int_bound : Z := 9007199254740992.
+Definition is_numlike (v : value) : bool :=
+  match v with
+  | VNull => true
+  | VFloat b r => negb (f64_is_nan b) && negb (match r with [] => true | _ => false end)
+  | VInt z | VTs z => (- num_int_bound <=? z) && (z <=? num_int_bound)
+  | _ => false
+  end.
+
 Definition is_boollike (v : value) : bool :=
   match v with VNull | VBool _ => true | _ => false end.
 
@@ -506,13 +517,14 @@ Definition plain_string (s : bytes) : bool :=
 Definition is_plainstr (v : value) : bool :=
   match v with VNull => true | VStr s => plain_string s | _ => false end.
 
-Inductive kind := KInt | KU64 | KFloat | KBool | KStr.
+Inductive kind := KInt | KU64 | KFloat | KNum | KBool | KStr.
 
 Definition in_kind (k : kind) (v : value) : bool :=
   match k with
   | KInt => is_intlike v
   | KU64 => is_u64like v
   | KFloat => is_floatlike v
+  | KNum => is_numlike v
   | KBool => is_boollike v
   | KStr => is_plainstr v
   end.
@@ -525,6 +537,14 @@ Definition opt_cmp {A} (c : A -> A -> comparison) (a b : option A) : comparison 
   | Some x, Some y => c x y
   end.
 
+(** position of a numeric cell on the double line *)
+Definition num_key (v : value) : option Z :=
+  match v with
+  | VFloat x _ => Some (f64_key x)
+  | VInt z | VTs z => Some (f64_key (f64_of_Z z))
+  | _ => None
+  end.
+
 (** the typed order of each kind (missing values first) *)
 Definition typed_compare (k : kind) (a b : value) : comparison :=
   match k with
@@ -534,6 +554,7 @@ Definition typed_compare (k : kind) (a b : value) : comparison :=
       opt_cmp Z.compare
         (match a with VFloat x _ => Some (f64_key x) | _ => None end)
         (match b with VFloat x _ => Some (f64_key x) | _ => None end)
+  | KNum => opt_cmp Z.compare (num_key a) (num_key b)
   | KBool =>
       opt_cmp bool_cmp (match a with VBool x => Some x | _ => None end)
                        (match b with VBool x => Some x | _ => None end)
@@ -542,7 +563,7 @@ Definition typed_compare (k : kind) (a b : value) : comparison :=
                 (match b with VStr s => s | _ => [] end)
   end.
 
-Definition all_kinds : list kind := [KInt; KU64; KFloat; KBool; KStr].
+Definition all_kinds : list kind := [KInt; KU64; KFloat; KNum; KBool; KStr].
 
 (** a column (list of keys) is coherent when one kind covers all its values *)
 Definition coherent (vs : list value) : bool :=
@@ -559,8 +580,8 @@ Definition is_numnull (v : value) : bool :=
 (** [None]: one kind covers the column and [scalar_compare] is its typed order.
     - [NumericLookingStrings]: a string column in which some value is accepted by a
       numeric or boolean accessor ("9" "10" "1a"; "true" "1" "x"; "nan").
-    - [NumericMixed]: Int64 / Timestamp cells together with Float64 cells (an
-      integer beyond 2^53 rounds when compared with a float), or a NaN.
+    - [NumericMixed]: Int64 / Timestamp cells beyond 2^53 together with Float64
+      cells (the integer rounds when compared with a float), or a NaN.
     - [MixedKinds]: any other mixture of runtime kinds in one column (arises from
       the string re-typing after FLUSH, C07). *)
 Definition classify_column (vs : list value) : option order_class :=
